@@ -210,6 +210,8 @@ class Evaluator:
         self.problems: List[Tuple[ast.AST, str]] = []
         self.n_override = None  # N fixed by an enclosing `len(shape) == k` test
         self.splits = 0
+        self.svd_prims = {"svd_interface", "truncated_svd", "svd", "randomized_svd", "symeig_svd"}
+        self.raw_returns: List[tuple] = []
         self._tops: Dict[int, Top] = {}
         self.solver_prims: set = set()
         self.in_loop = 0
@@ -235,6 +237,10 @@ class Evaluator:
         if isinstance(e, ast.Constant):
             return Other(e.value, e.value is None)
         if isinstance(e, ast.Name):
+            if e.id not in env:
+                ent = self.repo.resolve_expr(self.f, self.f.module, e)
+                if ent is not None and ent.kind == "func" and hasattr(ent.value, "qname"):
+                    return ("func", ent.value)
             return env.get(e.id, Other())
         if isinstance(e, ast.Tuple) or isinstance(e, ast.List):
             if any(isinstance(x, ast.Starred) for x in e.elts):
@@ -271,6 +277,8 @@ class Evaluator:
                         return ListV(b.length, b.elem(), {})
                     return ListV((b.length[0] - drop, b.length[1]), b.default if b.default is not None else b.elem(), over)
                 idx = s.value if isinstance(s, ast.Constant) and isinstance(s.value, int) else None
+                if _int_const(s) == -1 and "@-1" in b.over:
+                    idx = "@-1"
                 if isinstance(s, ast.Name):
                     lc = self._loop_for(s.id)
                     if lc is not None:
@@ -309,6 +317,16 @@ class Evaluator:
                 for i, v in b.over.items():
                     over[i + n] = v
                 return ListV((a.length[0] + b.length[0], b.length[1]), b.default, over)
+            if isinstance(a, Other) and isinstance(b, Other) and isinstance(e.op, (ast.Add, ast.Sub)):
+                ca = a.count if a.count is not None else ((a.const, 0) if isinstance(a.const, int) and not isinstance(a.const, bool) else None)
+                cb = b.count if b.count is not None else ((b.const, 0) if isinstance(b.const, int) and not isinstance(b.const, bool) else None)
+                if ca is not None and cb is not None and (a.count is not None or b.count is not None):
+                    sg = 1 if isinstance(e.op, ast.Add) else -1
+                    return Other(count=(ca[0] + sg * cb[0], ca[1] + sg * cb[1]))
+            if isinstance(e.op, ast.Mult) and isinstance(e.left, ast.List) and len(e.left.elts) == 1 and isinstance(b, Other) and b.count is not None:
+                # [None] * n / [x] * n: n elements (filled in later when None)
+                x0 = self.ev(e.left.elts[0], env)
+                return ListV(b.count, degree_of(x0) if isinstance(x0, Deg) else {}, {})
             da, db = degree_of(a), degree_of(b)
             if isinstance(e.op, (ast.Mult, ast.MatMult)):
                 return Deg(vadd(da, db))
@@ -489,6 +507,8 @@ class Evaluator:
             # L[-1] = v right after an append: the last element is replaced
             env[lname] = ListV(l.length, l.default, l.over, l.extra[:-1] + [d])
             return
+        if key is None and isinstance(slice_node, ast.UnaryOp) and isinstance(slice_node.op, ast.USub) and isinstance(slice_node.operand, ast.Constant) and slice_node.operand.value == 1:
+            key = "@-1"
         if key is None or l.length[0] == "?" or l.extra:
             env[lname] = ListV(l.length, unify(l.elem(), d, "stored element") if (l.default is not None or l.over) else d, {})
             return
@@ -598,7 +618,11 @@ class Evaluator:
         if name in self.ctx_returns:
             r = self.ctx_returns[name]
             return r(c) if callable(r) else r
-        if name in ("svd_interface", "truncated_svd", "svd", "randomized_svd", "symeig_svd") and args:
+        if name == "eigh" and args:
+            return ("tuple", [Deg(degree_of(args[0])), Deg({})])  # eigenvalues carry the degree, eigenvectors are orthonormal
+        if name == "qr" and args:
+            return ("tuple", [Deg({}), Deg(degree_of(args[0]))])
+        if name in self.svd_prims and args:
             # U and V are orthonormal (scale-free); the singular values carry the degree
             return ("tuple", [Deg({}), Deg(degree_of(args[0])), Deg({})])
         if name in self.solver_prims and len(args) >= 2:
@@ -645,11 +669,17 @@ class Evaluator:
         if name.startswith("_validate") or name in ("warn", "print", "isinstance", "ValueError"):
             return Other()
         # another view of the family: evaluate it inline
+        fv = env.get(c.func.id) if isinstance(c.func, ast.Name) else None
+        if isinstance(fv, tuple) and fv[0] == "func" and self.depth < 4:
+            from ..model import CallTarget
+
+            ct = CallTarget("repo", [fv[1]], fv[1].name)
         if ct.kind == "repo" and len(ct.funcs) >= 1 and self.depth < 4 and not ct.cha:
             g = ct.funcs[0]
             if g.module.name.startswith("tensorly.") and g.cls is None:
                 b = bind_call(c, g, ct.bound)
                 sub = Evaluator(self.ctx, g, self.config, self.depth + 1)
+                sub.ctx_returns, sub.solver_prims, sub.track_sign, sub.svd_prims = self.ctx_returns, self.solver_prims, self.track_sign, self.svd_prims
                 env2 = {}
                 for p in g.all_params:
                     if p in b.params:
@@ -660,6 +690,22 @@ class Evaluator:
                         env2[p] = Other()
                 sub.run(env2)
                 self.problems.extend(sub.problems)
+                tups = [v for _, v, _ in sub.raw_returns if isinstance(v, tuple) and v[0] == "tuple"]
+                if tups and len(tups) == len(sub.raw_returns) and all(len(t[1]) == len(tups[0][1]) for t in tups):
+                    # every return is a tuple of the same length: merge component-wise
+                    out = []
+                    for i in range(len(tups[0][1])):
+                        col = [t[1][i] for t in tups]
+                        if all(isinstance(x, Deg) for x in col):
+                            d = col[0].v
+                            for x in col[1:]:
+                                d = unify(d, x.v, f"return paths of {g.name}")
+                            out.append(Deg(d))
+                        elif all(isinstance(x, ListV) for x in col) and all(x.length == col[0].length and x.default == col[0].default and x.over == col[0].over for x in col):
+                            out.append(col[0])
+                        else:
+                            out.append(col[0] if len(col) == 1 else Other())
+                    return ("tuple", out)
                 main = [v for _, v, nf in sub.returns if isinstance(v, Deg) and nf is None]
                 special = [(v, nf) for _, v, nf in sub.returns if isinstance(v, Deg) and nf is not None]
                 if main:
@@ -730,8 +776,8 @@ class Evaluator:
             v = env.get(t.id)
             if isinstance(v, Other) and v.is_none:
                 return False
-            if isinstance(v, Other) and isinstance(v.const, bool):
-                return v.const
+            if isinstance(v, Other) and isinstance(v.const, (bool, int)):
+                return bool(v.const)
         return None
 
     # -- statements ------------------------------------------------------------------------
@@ -777,6 +823,7 @@ class Evaluator:
                     self.store_elem(s.target.value.id, s.target.slice, self.ev(fake, env), env)
             elif isinstance(s, ast.Return):
                 v = self.ev(s.value, env) if s.value is not None else Other()
+                self.raw_returns.append((s, v, self.n_override))
                 if isinstance(v, ListV):
                     v = Deg(v.elem())
                 self.returns.append((s, v, self.n_override))
@@ -974,6 +1021,8 @@ class Evaluator:
         self.config = saved_cfg
         once_given = [nm for nm, eq in once.values() if not (isinstance(env.get(nm), Other) and env[nm].is_none)]
         n_iter = None
+        # trip count given by a plain option / variable (not the length of a list of factors)
+        unknown_trip = isinstance(it, ast.Call) and is_name(it.func, "range") and len(it.args) == 1 and isinstance(it.args[0], (ast.Name, ast.Attribute)) and counted is None and pos_of is None
         if rest_len[0] != "?":
             n_iter = (rest_len[0] - (1 if (once_given and once) else 0), rest_len[1])
 
@@ -982,7 +1031,11 @@ class Evaluator:
             if isinstance(v1, Top) or isinstance(v2, Top) or isinstance(d0, Top):
                 return v1 if isinstance(v1, Top) else (v2 if isinstance(v2, Top) else d0)
             if v1 == v2:
-                return v1  # overwritten (not accumulated) in every iteration
+                # overwritten (not accumulated) in every iteration; a loop whose trip count is an
+                # option (range(n_iter)) may also run zero times
+                if n_iter is None and unknown_trip and d0 != v1 and d0 != ZERO and d0 is not None:
+                    return Top(f"{what} has degree {fmt(d0)} when the loop body never runs and {fmt(v1)} otherwise", lost=False)
+                return v1
             if d0 == ZERO or v1 == ZERO:
                 return Top(f"{what} changes degree irregularly in a loop")
             inc1, inc2 = vadd(v1, d0, -1), vadd(v2, v1, -1)
@@ -1159,12 +1212,12 @@ def run_homogeneity(ctx: Ctx, rule="HOMOGENEITY", only_modules=None):
     return n
 
 
-def run_units(ctx: Ctx, rule: str, specs, legend: str, why: str):
+def run_units(ctx: Ctx, rule: str, specs, legend: str, why: str, prims=None):
     """specs: (qualified name, entry environment, expected unit of every returned array, label).
     Reports (a) the innermost expressions that combine different units, (b) returns whose unit
     is not the expected one.  A unit that cannot be computed is an AnalysisError."""
     repo, res = ctx.repo, ctx.res
-    for qname, entry, expected, label in specs:
+    for qname, entry, expected_all, label in specs:
         f = repo.func(qname)
         missing = [p for p in entry if p not in f.all_params]
         if missing:
@@ -1178,10 +1231,14 @@ def run_units(ctx: Ctx, rule: str, specs, legend: str, why: str):
             else:
                 env[p] = Other()
         ev = Evaluator(ctx, f, {})
+        if prims is not None:
+            ev.svd_prims = set(prims)
         ev.run(env)
         cfg = f"{f.name} [{label}]" if label else f.name
         rets = []
-        for node, v, _ in ev.returns:
+        for node, v, _ in ev.raw_returns:
+            if isinstance(v, ListV):
+                v = Deg(v.elem())
             parts = v[1] if isinstance(v, tuple) and v[0] == "tuple" else [v]
             for i, pv in enumerate(parts):
                 if isinstance(pv, Deg):
@@ -1195,6 +1252,9 @@ def run_units(ctx: Ctx, rule: str, specs, legend: str, why: str):
             seen.add(id(node))
             ctx.finding(rule, f, node, f"`{cfg}`: `{src(node)[:90]}` combines quantities of different units ({msg}; {legend}): {why}", construct=f"{f.name}: {src(node)[:80]} mixes units")
         for node, i, got in rets:
+            expected = expected_all[i] if isinstance(expected_all, list) and i < len(expected_all) else (expected_all if not isinstance(expected_all, list) else None)
+            if expected is None:
+                continue
             ok = got == expected
             res.instance(rule, f"{cfg}: {src(node)[:50]} #{i}", sample={"configuration": label, "unit": fmt(got), "expected": fmt(expected), "mixed_unit_expressions": len(seen), "ok": ok})
             if isinstance(got, Top) and got.lost:
